@@ -107,6 +107,16 @@ check("C09", "runtime monitoring: post-condition wrappers on unpack_groups/compr
       "compression never grew the component list; editing copy or original never moved the other.",
       "Trusted: shadow model + fingerprints; U_full compared entry-wise to 1e-9.", "DESIGN.md 4 C09")
 
+check("C10", "runtime monitoring: class invariant on Parameter (icontract), exception-path wrappers on set/min_bound/max_bound/"
+      "ParameterDict.__setitem__, post-condition on get_all_params against the shadow's parameter set, late-bound shadow "
+      "comparison on every U read (live, frozen, invalid values), over seeded stateful histories",
+      "Held on the histories explored: bounds invariant after every accepted or rejected update, rejected updates change "
+      "nothing, U always reflects current values (also inside nested groups and shared parameters), frozen copies keep "
+      "their values and list no parameters, each parameter listed exactly once, invalid reflectivity/loss/phase values "
+      "surface as CircuitCompilationError.",
+      "Trusted: shadow model with parameters held by reference; icontract 2.7.3 (falls back to equivalent hand-written "
+      "wrappers if it cannot be imported).", "DESIGN.md 4 C10")
+
 NOT_APPLICABLE = []
 _EXPLICIT_NA = {}
 for line in open("/verif/properties.jsonl"):
@@ -117,7 +127,7 @@ for line in open("/verif/properties.jsonl"):
 
 manifest = {
     "version": 1,
-    "setup_cmd": "/venv/bin/python -m compileall -q /verif/lwverif >/dev/null && /venv/bin/python -m lwverif.selfcheck",
+    "setup_cmd": "(/venv/bin/pip install -q --no-index --find-links /opt/veriftools/wheels --target /verif/.deps icontract deal || true) && /venv/bin/python -m compileall -q /verif/lwverif >/dev/null && /venv/bin/python -m lwverif.selfcheck",
     "hooks": {
         "guard": "LIGHTWORKS_VERIF",
         "enable": "no source hooks: monitors are attached from outside by lwverif (class patching + import hook) when the checks run; LIGHTWORKS_VERIF=1 is exported by the runner for completeness",
